@@ -26,6 +26,13 @@ def fmtGB (g : GeoBox) : String := s!"{g.ny} {g.nx} {fmtAff g.A} {g.crs}"
 def fmtPt (p : Pt) : String := s!"{fmtRat p.1} {fmtRat p.2}"
 def fmtPtS (p : Pt) : String := s!"{fmtRat p.1};{fmtRat p.2}"
 
+def parsePt? (s : String) : Option Pt :=
+  match s.splitOn ";" with
+  | [x, y] => match parseRat? x, parseRat? y with
+    | some x, some y => some (x, y)
+    | _, _ => none
+  | _ => none
+
 def runOp (op : String) (g : GeoBox) (args : List String) : Option String :=
   match op, args with
   | "p2w", [x, y] => do
@@ -43,6 +50,10 @@ def runOp (op : String) (g : GeoBox) (args : List String) : Option String :=
   | "res", [n, m] => do
     let n ← parseRat? n; let m ← parseRat? m
     pure (fmtRes fmtPt (resolution g n m))
+  | "cropV", [inpix, pts] => do
+    let inpix ← parseBool? inpix
+    let pts ← parseList? parsePt? pts
+    pure (fmtRes fmtGB (cropRegion g inpix pts))
   | "crop1", [s] => do
     let s ← parsePIdx? s
     pure (fmtGB (crop g (.one s)))
@@ -109,6 +120,11 @@ is not exactly representable but the shape law is decided exactly). -/
 def run (args : List String) : Option String :=
   match args with
   | ["acc", name] => some (fmtBool (accessorKnown name))
+  | ["idxkind", name] => some (indexKind name)
+  | ["cropGB", ny, nx, aff, crs, ny2, nx2, aff2, crs2] => do
+    let g ← parseGB? ny nx aff crs
+    let w ← parseGB? ny2 nx2 aff2 crs2
+    pure (fmtRes fmtGB (cropGeoBox g w))
   | op :: ny :: nx :: aff :: crs :: rest => do
     let g ← parseGB? ny nx aff crs
     if op.startsWith "S:" then (runOp (op.drop 2).toString g rest).map shapeOnly else runOp op g rest
